@@ -55,6 +55,122 @@ func namedOf(t types.Type) *types.Named {
 	return n
 }
 
+// regEntry is one registration of a factory: the constant keys and the code that builds the object.
+// A factory is either a tag switch (`case K: return NewT()`) or a look-up in a package-level table
+// (`var tbl = map[K]func() T{K: func() T { return NewT() }}` / `K: NewT`, used as `tbl[code]`).
+type regEntry struct {
+	Keys []ast.Expr
+	Body ast.Node // clause / function literal / constructor identifier
+}
+
+func factoryEntries(p *core.Program, fi *core.FuncInfo) ([]regEntry, string) {
+	info := fi.Pkg.TypesInfo
+	var sw *ast.SwitchStmt
+	ast.Inspect(fi.Decl.Body, func(n ast.Node) bool {
+		if s, ok := n.(*ast.SwitchStmt); ok && sw == nil && s.Tag != nil {
+			sw = s
+		}
+		return sw == nil
+	})
+	if sw != nil {
+		var out []regEntry
+		for _, st := range sw.Body.List {
+			cl := st.(*ast.CaseClause)
+			if cl.List != nil {
+				out = append(out, regEntry{Keys: cl.List, Body: cl})
+			}
+		}
+		return out, ""
+	}
+	// table form
+	var lit *ast.CompositeLit
+	ast.Inspect(fi.Decl.Body, func(n ast.Node) bool {
+		ix, ok := n.(*ast.IndexExpr)
+		if !ok || lit != nil {
+			return true
+		}
+		id, ok := ast.Unparen(ix.X).(*ast.Ident)
+		if !ok {
+			return true
+		}
+		v, ok := info.Uses[id].(*types.Var)
+		if !ok || v.Pkg() == nil || v.Parent() != v.Pkg().Scope() {
+			return true
+		}
+		if _, isMap := v.Type().Underlying().(*types.Map); !isMap {
+			return true
+		}
+		// the table's initialiser
+		for _, f := range fi.Pkg.Syntax {
+			for _, d := range f.Decls {
+				gd, ok := d.(*ast.GenDecl)
+				if !ok || gd.Tok != token.VAR {
+					continue
+				}
+				for _, sp := range gd.Specs {
+					vs := sp.(*ast.ValueSpec)
+					for i, nm := range vs.Names {
+						if info.Defs[nm] == v && i < len(vs.Values) {
+							lit, _ = ast.Unparen(vs.Values[i]).(*ast.CompositeLit)
+						}
+					}
+				}
+			}
+		}
+		return true
+	})
+	if lit == nil {
+		return nil, "neither a tag switch nor a look-up in a package-level table literal"
+	}
+	// the table must not be written anywhere (it is the registry)
+	var out []regEntry
+	for _, el := range lit.Elts {
+		kv, ok := el.(*ast.KeyValueExpr)
+		if !ok {
+			return nil, "table literal without keys"
+		}
+		out = append(out, regEntry{Keys: []ast.Expr{kv.Key}, Body: kv.Value})
+	}
+	return out, ""
+}
+
+// entryCreated: the concrete type an entry constructs.
+func entryCreated(info *types.Info, e regEntry) *types.Named {
+	var created *types.Named
+	note := func(t types.Type) {
+		if n := namedOf(t); n != nil {
+			if _, isIface := n.Underlying().(*types.Interface); !isIface {
+				created = n
+			}
+		}
+	}
+	if id, ok := e.Body.(*ast.Ident); ok { // K: NewT
+		if fn, ok := info.Uses[id].(*types.Func); ok {
+			if sig := fn.Type().(*types.Signature); sig.Results().Len() >= 1 {
+				note(sig.Results().At(0).Type())
+			}
+		}
+		return created
+	}
+	ast.Inspect(e.Body, func(n ast.Node) bool {
+		if rs, ok := n.(*ast.ReturnStmt); ok && len(rs.Results) >= 1 {
+			if tv, ok := info.Types[rs.Results[0]]; ok {
+				note(tv.Type)
+			}
+		}
+		return true
+	})
+	if created == nil {
+		// K: &T{} / K: pool variable etc.: the static type of the value expression
+		if ex, ok := e.Body.(ast.Expr); ok {
+			if tv, ok := info.Types[ex]; ok {
+				note(tv.Type)
+			}
+		}
+	}
+	return created
+}
+
 // checkRegistry verifies a factory `switch code { case K: return NewT() ... }` against T.getter().
 // One obligation per case: the created type reports the same constant; no constant twice.
 func checkRegistry(p *core.Program, r *core.Report, rule, relPkg, factory, ifaceName, getter string) *registryResult {
@@ -65,15 +181,9 @@ func checkRegistry(p *core.Program, r *core.Report, rule, relPkg, factory, iface
 		return res
 	}
 	info := fi.Pkg.TypesInfo
-	var sw *ast.SwitchStmt
-	ast.Inspect(fi.Decl.Body, func(n ast.Node) bool {
-		if s, ok := n.(*ast.SwitchStmt); ok && sw == nil && s.Tag != nil {
-			sw = s
-		}
-		return sw == nil
-	})
-	if sw == nil {
-		r.Undec(rule, relPkg+"."+factory, p.Pos(fi.Decl.Pos()), "no tag switch in the factory")
+	entries, why := factoryEntries(p, fi)
+	if entries == nil {
+		r.Undec(rule, relPkg+"."+factory, p.Pos(fi.Decl.Pos()), "registry not recognised: "+why)
 		return res
 	}
 	pk := p.Pkg(relPkg)
@@ -81,26 +191,10 @@ func checkRegistry(p *core.Program, r *core.Report, rule, relPkg, factory, iface
 	if o := pk.Types.Scope().Lookup(ifaceName); o != nil {
 		iface, _ = o.Type().Underlying().(*types.Interface)
 	}
-	for _, st := range sw.Body.List {
-		cl := st.(*ast.CaseClause)
-		if cl.List == nil {
-			continue
-		}
-		// created type
-		var created *types.Named
-		ast.Inspect(cl, func(n ast.Node) bool {
-			if rs, ok := n.(*ast.ReturnStmt); ok && len(rs.Results) >= 1 {
-				if tv, ok := info.Types[rs.Results[0]]; ok {
-					if n := namedOf(tv.Type); n != nil {
-						if _, isIface := n.Underlying().(*types.Interface); !isIface {
-							created = n
-						}
-					}
-				}
-			}
-			return true
-		})
-		for _, ke := range cl.List {
+	for _, ent := range entries {
+		cl := ent.Body
+		created := entryCreated(info, ent)
+		for _, ke := range ent.Keys {
 			tv, ok := info.Types[ke]
 			name := types.ExprString(ke)
 			construct := fmt.Sprintf("%s.%s case %s", relPkg, factory, name)
@@ -195,7 +289,7 @@ func checkRegistry(p *core.Program, r *core.Report, rule, relPkg, factory, iface
 }
 
 // fieldGetterValue: getter is `return recv.f`; the case returns NewT() whose body assigns `x.f = CONST`.
-func fieldGetterValue(p *core.Program, info *types.Info, cl *ast.CaseClause, getter *core.FuncInfo) constant.Value {
+func fieldGetterValue(p *core.Program, info *types.Info, cl ast.Node, getter *core.FuncInfo) constant.Value {
 	if getter.Decl.Body == nil || len(getter.Decl.Body.List) != 1 {
 		return nil
 	}
@@ -264,34 +358,49 @@ func checkFactoryFresh(p *core.Program, r *core.Report, rule, rel, factory strin
 	}
 	info := fi.Pkg.TypesInfo
 	n := 0
-	ast.Inspect(fi.Decl.Body, func(m ast.Node) bool {
-		rs, ok := m.(*ast.ReturnStmt)
-		if !ok || len(rs.Results) != 1 {
-			return true
-		}
-		if id, isId := ast.Unparen(rs.Results[0]).(*ast.Ident); isId && id.Name == "nil" {
-			return true
+	judge := func(res ast.Expr, pos token.Pos) {
+		if id, isId := ast.Unparen(res).(*ast.Ident); isId && id.Name == "nil" {
+			return
 		}
 		n++
-		c := rel + "." + factory + " -> " + stripSpaces(types.ExprString(rs.Results[0]))
-		why := freshExpr(p, info, fi, rs.Results[0], 0)
+		c := rel + "." + factory + " -> " + stripSpaces(types.ExprString(res))
+		why := freshExpr(p, info, fi, res, 0)
 		if why != "" {
 			// a shared instance of a type without any state cannot be overwritten by decoding
-			t := info.TypeOf(rs.Results[0])
+			t := info.TypeOf(res)
 			if pt, ok := t.(*types.Pointer); ok {
 				t = pt.Elem()
 			}
-			if st, ok := t.Underlying().(*types.Struct); ok && st.NumFields() == 0 {
-				why = ""
+			if t != nil {
+				if st, ok := t.Underlying().(*types.Struct); ok && st.NumFields() == 0 {
+					why = ""
+				}
 			}
 		}
 		if why != "" {
-			r.Viol(rule, c, p.Pos(rs.Pos()), "the factory hands out storage that is not allocated by this call ("+why+"): decoded objects of this type alias each other, and decoding one overwrites the others")
+			r.Viol(rule, c, p.Pos(pos), "the factory hands out storage that is not allocated by this call ("+why+"): decoded objects of this type alias each other, and decoding one overwrites the others")
 		} else {
-			r.OK(rule, c, p.Pos(rs.Pos()), "freshly allocated")
+			r.OK(rule, c, p.Pos(pos), "freshly allocated")
 		}
-		return true
-	})
+	}
+	entries, _ := factoryEntries(p, fi)
+	for _, ent := range entries {
+		switch b := ent.Body.(type) {
+		case *ast.Ident: // K: NewT  -> what NewT returns
+			if fn, ok := info.Uses[b].(*types.Func); ok {
+				call := &ast.CallExpr{Fun: b}
+				info.Types[call] = types.TypeAndValue{Type: fn.Type().(*types.Signature).Results().At(0).Type()}
+				judge(call, b.Pos())
+			}
+		default:
+			ast.Inspect(ent.Body, func(m ast.Node) bool {
+				if rs, ok := m.(*ast.ReturnStmt); ok && len(rs.Results) >= 1 {
+					judge(rs.Results[0], rs.Pos())
+				}
+				return true
+			})
+		}
+	}
 	if n == 0 {
 		r.Undec(rule, rel+"."+factory, p.Pos(fi.Decl.Pos()), "no constructing return found")
 	}
